@@ -362,7 +362,8 @@ pub fn write_numeric_string(string: &[u8], minimum: usize,  s: &mut dyn Write) -
 
     write_length(length as u16)?.write(s)?;
 
-    for i in 0..string.len() {
+    // two digits per octet
+    for i in (0..string.len()).step_by(2) {
         let mut c1 = string[i];
         let mut c2 = if i + 1 < string.len() {
             string[i+1]
